@@ -531,6 +531,9 @@ func rlReflectDriver(raw json.RawMessage) *Out {
 	if c.Opts.ZeroPrefixed {
 		out.Key += "|zeroPrefixed"
 	}
+	if c.Opts.OptDesc {
+		out.Key += "|optDesc"
+	}
 	fam := rlFamily(d.Kind)
 	where := d.Card + ":" + d.Kind
 	set := rlSetAttrs(d)
@@ -636,8 +639,30 @@ func rlReflectDriver(raw json.RawMessage) *Out {
 			}
 		}
 	}
+	// "for every ... enum, the schema the source declared": the options of Color in declaration order, numbered by position
+	checkEnum := func(src string, f protoreflect.FileDescriptor) {
+		if d.Kind != "enum" {
+			return
+		}
+		er, err, _ := rlReflectSet(f, "Color")
+		if err != nil || er.GetEnum() == nil {
+			return // a reflection failure is reported by check()
+		}
+		var got, want []string
+		for _, o := range er.GetEnum().Options {
+			got = append(got, fmt.Sprintf("%s=%d", o.Name, o.Number))
+		}
+		want = append(want, "UNSPECIFIED=0")
+		for i, n := range rlEnumOptions {
+			want = append(want, fmt.Sprintf("%s=%d", n, i+1))
+		}
+		if !reflect.DeepEqual(got, want) {
+			out.V(fmt.Sprintf("C04|enum|options|%s", src), "declared options %v, reflected %v (%s)\n%s", want, got, src, text)
+		}
+	}
 	root, rerr, pan := rlReflectCache(md)
 	check("memory", root, rerr, pan)
+	checkEnum("memory", fd)
 	root2, rerr2, pan2 := rlReflectSet(fd, "Subject")
 	if rerr2 != nil || rerr != nil {
 		if (rerr2 == nil) != (rerr == nil) {
@@ -655,6 +680,7 @@ func rlReflectDriver(raw json.RawMessage) *Out {
 		if terr != nil {
 			out.D("C04|text|reparse-error|"+fam, "printed text does not parse (property C05): %v\n%s", terr, printed)
 		} else {
+			checkEnum("text", tfd)
 			root3, rerr3, pan3 := rlReflectSet(tfd, "Subject")
 			memProj := projections["memory"]
 			nBefore := len(out.Viol)
